@@ -43,6 +43,11 @@ type Explorer struct {
 	Failures []Failure
 	seen     map[string]int // state key -> min preemptions used when first seen
 	MaxFail  int
+	// Shard/NShards partition the exploration over worker processes: the subtrees
+	// hanging off the root execution are dealt round-robin; the root execution
+	// itself belongs to shard 0.
+	Shard, NShards int
+	rootChild      int
 }
 
 // run executes one schedule: replay prefix then default choice 0.
@@ -96,8 +101,14 @@ func (e *Explorer) explore(prefix []int) {
 	}
 
 	out, sig, sum := e.run(prefix)
-	e.Stats.Executions++
-	e.Stats.Points += int64(len(out.Points))
+
+	isRoot := prefix == nil
+	if isRoot && e.NShards > 1 && e.Shard != 0 {
+		sig = "" // counted and judged by shard 0
+	} else {
+		e.Stats.Executions++
+		e.Stats.Points += int64(len(out.Points))
+	}
 
 	if len(out.Points) > e.Stats.MaxPoints {
 		e.Stats.MaxPoints = len(out.Points)
@@ -150,6 +161,15 @@ func (e *Explorer) explore(prefix []int) {
 			}
 
 			next[i] = alt
+
+			if isRoot && e.NShards > 1 {
+				e.rootChild++
+
+				if e.rootChild%e.NShards != e.Shard {
+					continue
+				}
+			}
+
 			e.explore(next)
 		}
 	}
